@@ -74,3 +74,43 @@ Definition hcase := (nat * nat * nat)%type.
 Definition check_hcase (c : hcase) : bool :=
   let '(n, bf, h) := c in Nat.eqb (tree_height n bf) h.
 Definition height_mismatches := mismatches_with check_hcase.
+
+(* ---- sessions: many queries, in arbitrary order and repeated, on long-lived instances ----
+   The model is a pure function of (ids, bf, vantage), so every answer of a long-lived Go
+   instance — whatever was asked before, by whom, on instances sharing one position slice or
+   built through NewDelayed — must equal the model's answer for a fresh instance. *)
+Inductive qobs : Type :=
+| QParent (p : rid) (ok : bool)
+| QReplicaChildren (l : list rid)
+| QChildrenOf (y : rid) (l : list rid)
+| QSubTree (l : list rid)
+| QPeersOf (l : list rid)
+| QReplicaHeight (h : nat)
+| QTreeHeight (h : nat)
+| QRoot (r : rid)
+| QIsRoot (y : rid) (b : bool)
+| QHeightOf (y : rid) (h : nat).
+
+Definition check_qobs (t : tree) (q : qobs) : bool :=
+  match q with
+  | QParent p ok => match parent t with Ok (p', ok') => N.eqb p p' && Bool.eqb ok ok' | _ => false end
+  | QReplicaChildren l => ids_eqb l (replica_children t)
+  | QChildrenOf y l => ids_eqb l (children_of t y)
+  | QSubTree l => match subtree t with Some l' => ids_eqb l l' | None => false end
+  | QPeersOf l => match peers_of t with Ok l' => ids_eqb l l' | _ => false end
+  | QReplicaHeight h => Nat.eqb h (replica_height t)
+  | QTreeHeight h => Nat.eqb h (tree_height_m t)
+  | QRoot r => match root t with Ok r' => N.eqb r r' | _ => false end
+  | QIsRoot y b => Bool.eqb b (is_root t y)
+  | QHeightOf y h => Nat.eqb h (height_of t y)
+  end.
+
+(* (position list, branch factor, the queries in the order they were made: (vantage, answer)) *)
+Definition scase := (list rid * Z * list (rid * qobs))%type.
+Definition check_scase (c : scase) : bool :=
+  let '(ids, bf, qs) := c in
+  forallb (fun xq => match new_simple (fst xq) bf ids with
+                     | Ok t => check_qobs t (snd xq)
+                     | _ => false
+                     end) qs.
+Definition session_mismatches := mismatches_with check_scase.
